@@ -7,6 +7,7 @@ import (
 	"path/filepath"
 	"sort"
 	"strings"
+	"time"
 
 	"verifharness/internal/vl"
 )
@@ -72,10 +73,11 @@ type dynStats struct {
 
 func runDynamic(t Tools, dir string, seed uint64, tier string, out *vl.Out) dynStats {
 	r := vl.NewRng(seed ^ 0xC07D)
-	nProg, nOpt, nRuns, budget := 8, 4, 6, 160
+	nProg, nOpt, nRuns, budget, limit := 8, 4, 6, 80, 25*time.Second
 	if tier == "thorough" {
-		nProg, nOpt, nRuns, budget = 40, 10, 20, 400
+		nProg, nOpt, nRuns, budget, limit = 40, 10, 20, 250, 90*time.Second
 	}
+	t00 := time.Now()
 	st := dynStats{PerOptSet: map[string]int{}, DifferingByKey: map[string]int{}, ProgShape: map[string]int{}, RunsPerCombo: nRuns + 1}
 	type combo struct {
 		p   Prog
@@ -117,6 +119,7 @@ func runDynamic(t Tools, dir string, seed uint64, tier string, out *vl.Out) dynS
 		c.res[nRuns] = runOne(t, c.o, c.idl, filepath.Join(c.dir, "r0"), "out", gmp[2])
 	})
 	st.Executions = len(combos) * (nRuns + 1)
+	fmt.Fprintf(os.Stderr, "c07: %d executions of thriftgo in %.1fs\n", st.Executions, time.Since(t00).Seconds())
 	type found struct {
 		o OptSet
 		d *Diff
@@ -182,7 +185,10 @@ func runDynamic(t Tools, dir string, seed uint64, tier string, out *vl.Out) dynS
 			sig := c.o.Backend + ":" + first.Kind + ":" + first.Pattern + ":" + first.Attr
 			st.DifferingByKey[sig]++
 			if !covered(c.o, first) {
-				p2, o2, d2, tests := shrink(t, c.p, c.o, first, filepath.Join(dir, "shrink", fmt.Sprint(ci)), 20, budget)
+				t0 := time.Now()
+				p2, o2, d2, tests := shrink(t, c.p, c.o, first, filepath.Join(dir, "shrink", fmt.Sprint(ci)), 12, budget, limit)
+				fmt.Fprintf(os.Stderr, "c07: shrunk %s (%s %s %s) to %d lines, %s in %d tests, %.1fs\n", c.o.Name, first.Kind, first.Pattern, first.Attr,
+					p2.NLines(), o2.gArg(), tests, time.Since(t0).Seconds())
 				st.ShrinkTests += tests
 				minimal = append(minimal, found{o2, d2})
 				out.Fail(mkFail(p2, o2, d2, 40))
